@@ -28,6 +28,10 @@ def producer_script(stage, n_items, n_workers):
     rec = mpmodel.extract_producer(lambda: stage.run_entry(n_items, n_workers, lambda k: seen.append(k)))
     if seen:
         raise HarnessError("%s: the producer processed items itself in parallel mode" % stage.name)
+    if rec.raised is not None:
+        # an exception during a fault-free extraction run is a limitation of the recording fakes (or a crash of the
+        # entry point): either way the extracted script is not the code's behaviour — fail closed, never report it
+        raise HarnessError("%s: the entry point raised during extraction against the recording fakes: %s" % (stage.name, rec.raised))
     script = [op for op in rec.ops if op[0] != "is_set"]
     return script, rec
 
